@@ -67,6 +67,11 @@ _protocol_version_bytes = PROTOCOL_VERSION.to_bytes(2, "big")
 _empty_correlation_id = b"\0" * 16
 
 
+def _nbytes(value):
+    """size in bytes of an annotation value (a memoryview can have items larger than a byte)"""
+    return value.nbytes if isinstance(value, memoryview) else len(value)
+
+
 class SendingMessage:
     """Wire protocol message that will be sent."""
 
@@ -75,7 +80,7 @@ class SendingMessage:
         self.seq = seq
         self.serializer_id = serializer_id
         annotations = annotations or {}
-        annotations_size = sum([8 + len(v) for v in annotations.values()])
+        annotations_size = sum([8 + _nbytes(v) for v in annotations.values()])
         flags &= ~FLAGS_COMPRESSED
         if config.COMPRESSION and len(payload) > 100:
             payload = zlib.compress(payload, 4)
@@ -95,7 +100,7 @@ class SendingMessage:
         for k, v in annotations.items():
             if len(k) != 4:
                 raise errors.ProtocolError("annotation identifier must be 4 ascii characters")
-            annotation_data.append(struct.pack("!4sI", k.encode("ascii"), len(v)))
+            annotation_data.append(struct.pack("!4sI", k.encode("ascii"), _nbytes(v)))
             if not isinstance(v, (bytes, bytearray, memoryview)):
                 raise errors.ProtocolError("annotation data must be bytes, bytearray, or memoryview", type(v))
             annotation_data.append(v)    # note: annotations are not compressed by Pyro
